@@ -687,31 +687,47 @@ def make_world(reqs, client_script, schedule=(), policy=None, lookahead=0, n_wor
 
 
 def world_script(reqs, mode="same_read"):
-    """Client scripts in which the client WAITS for the interim response of every
-    asking request that has a body, and sends the body only then.
-    mode same_read: every head is sent as early as possible (heads of the
-    following requests in the same send as the previous body); later_read: one
-    send per head."""
+    """Client scripts for the interleaved runs.  mode = grouping + style:
+    grouping  same: the head of a request travels in the same send as what precedes
+              it (so it can be parsed while the preceding request is in service);
+              later: one send per request head;
+    style     wait: the client WAITS for the interim response of every asking request
+              that has a body and sends the body only then;
+              split: the client sends the first part of the body WITHOUT waiting (a
+              client whose timer expired), then waits for the interim response, then
+              sends the rest -- the body is still incomplete when the request's turn
+              comes, so exactly one interim response is still due;
+              eager: the client never waits (at most one interim response).
+    Names: same_read (same+wait), later_read (later+wait), split_same, split_body
+    (later+split), eager_same, eager (later+eager).
+    -> (script, indices of the requests that must get exactly one interim response)"""
+    group, style = {
+        "same_read": ("same", "wait"), "later_read": ("later", "wait"),
+        "split_same": ("same", "split"), "split_body": ("later", "split"),
+        "eager_same": ("same", "eager"), "eager": ("later", "eager"),
+    }[mode]
     script = []
     waited = []
-    n_interims = 0
     pend = b""
     for r in reqs:
         head, payload = r.head(), r.payload()
-        if r.asks and payload and not r.refused:
+        if style != "eager" and r.asks and payload and not r.refused:
             pend += head
             script.append(("send", pend))
             pend = b""
-            n_interims += 1
+            if style == "split" and len(payload) >= 2:
+                k = max(1, len(payload) // 2)
+                script.append(("send", payload[:k]))
+                payload = payload[k:]
             waited.append(r.idx)
             script.append(("wait_interim", r.idx))
-            if mode == "same_read":
+            if group == "same":
                 pend = payload
             else:
                 script.append(("send", payload))
         else:
             pend += head + payload
-            if mode != "same_read":
+            if group != "same":
                 script.append(("send", pend))
                 pend = b""
     if pend:
